@@ -11,6 +11,8 @@ pub struct Dependency {
 #[derive(Debug, Clone, Copy, PartialEq, Eq, Hash)]
 pub enum NodeKind {
     Source(Key),
+    /// A source that was absent when it was read. It has changed once it is present.
+    AbsentSource(Key),
     Derived(DerivedNodeId),
 }
 
